@@ -662,6 +662,11 @@ def m_into_iter(ip, c, a):
         return v
     if isinstance(v, Agg) and v.ty == 'Vec': return Agg('VecIntoIter', None, [Cell(v.fields[0].v), Cell(0)])
     if isinstance(v, list): return Agg('VecIntoIter', None, [Cell(v), Cell(0)])
+    if isinstance(v, Agg) and v.ty == 'HashMap':
+        # by value (shim: self.items.into_iter()): the (key, value) pairs in insertion order
+        items = v.fields[0].v
+        lst = items if isinstance(items, list) else items.fields[0].v
+        return Agg('VecIntoIter', None, [Cell(list(lst)), Cell(0)])
     return v
 def m_vec_into_iter_next(ip, c, a):
     it = unref(a[0]); lst = it.fields[0].v; i = it.fields[1].v
